@@ -64,7 +64,12 @@ fn run_loose(desc: &Value, ctx: &Ctx) -> CaseOut {
         std::fs::create_dir_all(&origin).unwrap();
         // last content pack external, the others embedded with the empty location
         let last = n_packs;
-        let created = match create_loose(&case, &origin, &|i, f| if i == last { f.to_string() } else { String::new() }, None) {
+        // (an embedded pack is recorded either with the empty location or with the name of the file it came from, which no
+        // longer exists once the packs are joined: a pack held by the opened file is found there by uuid, whatever location it carries)
+        let stale_bits = ju64(desc, "scn_seed") >> 8;
+        let stale = |i: usize| (stale_bits >> (i % 48)) & 1 == 1;
+        out.obs.add("embedded_packs_with_stale_location", (0..last).filter(|i| stale(*i)).count() as u64);
+        let created = match create_loose(&case, &origin, &|i, f| if i == last || stale(i) { f.to_string() } else { String::new() }, None) {
             Ok(c) => c,
             Err(e) => return out.inconclusive(format!("creation failed: {e}")),
         };
